@@ -46,6 +46,10 @@ class PathCap(BaseException):
 DEFAULT_TIMEOUT_MS = 20000
 
 
+import os as _os
+
+REPO_ROOT = _os.environ.get("VERIF_REPO", "/repo")  # only tools/seed_regress.py overrides this (scratch copy of /repo)
+
 HASH_ZERO = [False]  # see DESIGN §2: proxies hash to 0 (== hash(0.0)) when a harness enables it
 
 
@@ -1222,8 +1226,8 @@ def _profile_collect(store: set):
         if event == "call":
             co = frame.f_code
             fn = co.co_filename
-            if "/repo/" in fn:
-                mod = fn.split("/repo/")[1]
+            if REPO_ROOT + "/" in fn:
+                mod = fn.split(REPO_ROOT + "/")[1]
                 store.add("%s:%s" % (mod, co.co_qualname if hasattr(co, "co_qualname") else co.co_name))
 
     return prof
